@@ -109,7 +109,18 @@ func run(e *harness.Env) {
 			if lay.Split > 1 {
 				lay.SplitAt = c.PickI("cut", 0, 1, 2)
 			}
-			lay.Depth = c.PickI("depth", 1, 2, 3)
+			switch c.PickS("depth", "1", "2", "3", "2u", "3u") {
+			case "1":
+				lay.Depth = 1
+			case "2":
+				lay.Depth = 2
+			case "3":
+				lay.Depth = 3
+			case "2u":
+				lay.Depth, lay.Unbalanced = 2, true
+			case "3u":
+				lay.Depth, lay.Unbalanced = 3, true
+			}
 			if lay.Depth > 1 {
 				lay.Inherit = c.PickS("inherit", "leaf", "parent", "root")
 			} else {
